@@ -167,7 +167,7 @@ def describe(kind, s_, d, ncols, dstmode, buf, a=None, pre=None):
     if pre: t = 'after %s: ' % (pre,) + t
     return t
 
-def ob_transform(ctx, prop, kind, s_, d, ncols, dstmode, buf, a=None, pre=None, nthreads=1):
+def ob_transform(ctx, prop, kind, s_, d, ncols, dstmode, buf, a=None, pre=None, nthreads=1, sched=None):
     """one configuration class, nphase and nblock ranging over all uint64 values; pre = earlier call on the same object (C19)"""
     w, alg0 = setup(ctx)
     names = ['nphase_x', 'nblock_x']
@@ -179,7 +179,7 @@ def ob_transform(ctx, prop, kind, s_, d, ncols, dstmode, buf, a=None, pre=None, 
         for hi, (pk, pd, pa, pncols) in enumerate(hist):
             # earlier calls of the history: their data is symbolic, their schedule parameters are the defaults unless it is the only earlier call
             do_call(w, alg, it, this, pk, pd, pncols, 'other', False, tag='y%d' % hi if len(hist) > 1 else 'y', a=pa, params=None if len(hist) == 1 else (3, 1))
-        outs, xs, coef, same = do_call(w, alg, it, this, kind, d, ncols, dstmode, buf, tag='x', a=a)
+        outs, xs, coef, same = do_call(w, alg, it, this, kind, d, ncols, dstmode, buf, tag='x', a=a, params=sched)
         rc2 = None
         finish(w, it, this)
         cex = check_outputs(alg, outs, coef, xs, ncols)
@@ -196,6 +196,7 @@ def ob_transform(ctx, prop, kind, s_, d, ncols, dstmode, buf, a=None, pre=None, 
     npaths = len(paths); soft = set()
     for p in paths:
         prm = path_params(p, nm)
+        if sched is not None: prm['nphase_x'], prm['nblock_x'] = sched
         ps = ', '.join('%s=%d' % (k.split('_')[0] if k.endswith('_x') else k, v) for k, v in prm.items())
         rep = dict(kind=kind, s=s_, d=d, a=a, ncols=ncols, dstmode=dstmode, buf=buf, pre=pre, params=prm, nthreads=nthreads)
         if p.status == 'violation':
@@ -213,7 +214,7 @@ def ob_transform(ctx, prop, kind, s_, d, ncols, dstmode, buf, a=None, pre=None, 
     if soft and prop == 'C18':
         ev = sorted(soft)[0]
         return viol('%s/%s' % ('lifetime', ev[0]), '%s: %s' % (desc, ev[1]), replay=dict(kind=kind, s=s_, d=d, a=a, ncols=ncols, dstmode=dstmode, buf=buf, pre=pre, event=list(ev), nthreads=nthreads, params={}))
-    return ok('%d schedule classes cover all 2^128 (nphase, nblock) values; every output word ≡ definition' % npaths,
+    return ok(('%d schedule classes cover all 2^128 (nphase, nblock) values; every output word ≡ definition' % npaths) if sched is None else ('nphase=%d nblock=%d: every output word ≡ definition' % sched),
               sample=dict(call=desc, schedule_classes=npaths, params_of_first_class=path_params(paths[0], nm)))
 
 def ob_transform_bits(ctx, prop, kind, s_, d, ncols, dstmode, buf, a, nthreads, why):
